@@ -1,2 +1,845 @@
-use crate::common::{Args, Report};
-pub fn run(_args: &Args, _r: &mut Report) {}
+//! C19 — "Times survive persistence and compare consistently".
+//!
+//! Oracle: independent reference arithmetic in i128 nanoseconds relative to the UNIX epoch for wall
+//! times and in nanoseconds relative to one fixed base `Instant` for monotonic times.  The library
+//! (`omaha_client::time`, `StorageExt::{get_time,set_time}` over `MemStorage`) is run on boundary
+//! biased inputs and every result is compared with that reference.
+
+use crate::common::{guard, Args, Fnv, PanicInfo, Report, Rng};
+use futures::executor::block_on;
+use omaha_client::storage::{MemStorage, Storage, StorageExt};
+use omaha_client::time::system_time_conversion::{
+    checked_system_time_to_micros_from_epoch as lib_to_micros,
+    micros_from_epoch_to_system_time as lib_from_micros,
+};
+use omaha_client::time::{ComplexTime, PartialComplexTime};
+use serde_json::{json, Value};
+use std::collections::BTreeMap;
+use std::time::{Duration, Instant, SystemTime};
+
+const NS_PER_S: i128 = 1_000_000_000;
+/// 2^63 microseconds, in nanoseconds: the edge of what fits an i64 microsecond count.
+const EDGE_NS: i128 = (1i128 << 63) * 1000;
+/// +/- 300 000 Julian years in nanoseconds (slightly beyond +/- 2^63 us).
+const WALL_LIM_NS: i128 = 300_000 * 31_557_600 * NS_PER_S;
+/// Monotonic offsets stay within [base, base + 200 years].
+const MONO_MAX_NS: u128 = 200 * 31_557_600 * 1_000_000_000;
+
+const RULES: [&str; 7] = [
+    "micros-roundtrip",
+    "to-micros-trunc",
+    "storage-roundtrip",
+    "truncate-agrees",
+    "truncate-idempotent",
+    "arith-components",
+    "after-or-eq-any",
+];
+
+// ---------------------------------------------------------------------------------------------
+// Reference arithmetic (trusted base: std Duration/SystemTime/Instant checked ops + i128 maths)
+
+/// epoch + n ns, or None when the platform SystemTime cannot represent it.
+fn st_from_ns(n: i128) -> Option<SystemTime> {
+    let a = n.unsigned_abs();
+    let secs = u64::try_from(a / NS_PER_S as u128).ok()?;
+    let d = Duration::new(secs, (a % NS_PER_S as u128) as u32);
+    if n >= 0 {
+        SystemTime::UNIX_EPOCH.checked_add(d)
+    } else {
+        SystemTime::UNIX_EPOCH.checked_sub(d)
+    }
+}
+/// Signed nanoseconds of `t` relative to the epoch.
+fn ns_of_st(t: SystemTime) -> i128 {
+    match t.duration_since(SystemTime::UNIX_EPOCH) {
+        Ok(d) => d.as_nanos() as i128,
+        Err(e) => -(e.duration().as_nanos() as i128),
+    }
+}
+/// Reference microsecond count: truncation toward the epoch, None when it does not fit i64.
+fn ref_micros(n: i128) -> Option<i64> {
+    i64::try_from(n / 1000).ok() // i128 `/` truncates toward zero
+}
+fn dur_from_ns(ns: u128) -> Duration {
+    Duration::new((ns / NS_PER_S as u128) as u64, (ns % NS_PER_S as u128) as u32)
+}
+fn mono_at(base: Instant, off: u64) -> Instant {
+    base + Duration::from_nanos(off)
+}
+/// Signed nanoseconds of `i` relative to `base`.
+fn off_of(base: Instant, i: Instant) -> i128 {
+    match i.checked_duration_since(base) {
+        Some(d) => d.as_nanos() as i128,
+        None => -(base.duration_since(i).as_nanos() as i128),
+    }
+}
+
+/// Normal form of a (partial) complex time in reference units: (variant tag, wall ns, mono ns).
+/// tag 0 = ComplexTime struct, 1 = Wall, 2 = Monotonic, 3 = PartialComplexTime::Complex.
+type Norm = (u8, Option<i128>, Option<i128>);
+fn norm_c(base: Instant, c: ComplexTime) -> Norm {
+    (0, Some(ns_of_st(c.wall)), Some(off_of(base, c.mono)))
+}
+fn norm_p(base: Instant, p: PartialComplexTime) -> Norm {
+    match p {
+        PartialComplexTime::Wall(w) => (1, Some(ns_of_st(w)), None),
+        PartialComplexTime::Monotonic(m) => (2, None, Some(off_of(base, m))),
+        PartialComplexTime::Complex(c) => (3, Some(ns_of_st(c.wall)), Some(off_of(base, c.mono))),
+    }
+}
+const VAR_NAMES: [&str; 4] = ["ComplexTime", "Wall", "Monotonic", "Complex"];
+
+// ---------------------------------------------------------------------------------------------
+// Classification for shape keys
+
+fn bits(x: u128) -> u64 {
+    (128 - x.leading_zeros()) as u64
+}
+fn rem_class(n: i128) -> u64 {
+    match n.unsigned_abs() % 1000 {
+        0 => 0,
+        1 => 1,
+        999 => 2,
+        _ => 3,
+    }
+}
+fn boundary_micros() -> Vec<i64> {
+    let mut v = vec![
+        i64::MIN,
+        i64::MIN + 1,
+        i64::MIN + 999,
+        -1_000_001,
+        -1_000_000,
+        -999_999,
+        -1000,
+        -999,
+        -1,
+        0,
+        1,
+        999,
+        1000,
+        999_999,
+        1_000_000,
+        1_000_001,
+        i64::MAX - 999,
+        i64::MAX - 1,
+        i64::MAX,
+    ];
+    for k in 1..63 {
+        let p = 1i64 << k;
+        v.extend_from_slice(&[p - 1, p, p + 1, -(p - 1), -p, -(p + 1)]);
+    }
+    v.sort_unstable();
+    v.dedup();
+    v
+}
+/// Is this microsecond count one of the named boundary values (or within 1 of a power of two)?
+fn micros_is_boundary(m: i64) -> bool {
+    let a = m.unsigned_abs();
+    let near_pow2 = |x: u64| x.is_power_of_two() || (x + 1).is_power_of_two() || (x > 1 && (x - 1).is_power_of_two());
+    a <= 1000 || (999_999..=1_000_001).contains(&a) || a >= (1u64 << 63) - 1000 || near_pow2(a)
+}
+fn wall_is_boundary(n: i128) -> bool {
+    let a = n.abs();
+    a <= 2000 || (a - EDGE_NS).abs() <= 2000 || ref_micros(n).map_or(true, micros_is_boundary)
+}
+fn wall_shape(f: &mut Fnv, n: i128) {
+    f.u64((n < 0) as u64).u64(bits(n.unsigned_abs())).u64(rem_class(n));
+    f.u64(match ref_micros(n) {
+        None => 2,
+        Some(m) => micros_is_boundary(m) as u64,
+    });
+}
+fn dur_class(d: Duration) -> u64 {
+    let ns = d.as_nanos();
+    let kind = if ns == 0 {
+        0
+    } else if ns < 1000 {
+        1
+    } else if ns % 1000 == 0 {
+        2
+    } else {
+        3
+    };
+    kind * 32 + bits(ns) / 4
+}
+
+// ---------------------------------------------------------------------------------------------
+// Cases
+
+#[derive(Clone, Debug)]
+enum Case {
+    Micros(i64),
+    Wall(i128),
+    /// var 0..=3 (see `Norm`), wall ns, mono offset ns, duration.
+    Arith { var: u8, n: i128, mo: u64, d: Duration },
+    /// var 1..=3 built from (n, mo) and completed with (cn, cmo); `alt` selects the From route.
+    Build { var: u8, n: i128, mo: u64, cn: i128, cmo: u64, alt: bool },
+    /// self = (n, mo); other has variant `var` (0 = ComplexTime passed directly) over (pn, pmo).
+    After { var: u8, n: i128, mo: u64, pn: i128, pmo: u64, alt: bool },
+}
+
+impl Case {
+    fn to_json(&self) -> Value {
+        match self {
+            Case::Micros(m) => json!({"kind": "micros", "m": m.to_string()}),
+            Case::Wall(n) => json!({"kind": "wall", "n_ns": n.to_string()}),
+            Case::Arith { var, n, mo, d } => json!({"kind": "arith", "var": var, "n_ns": n.to_string(),
+                "mono_ns": mo.to_string(), "d_ns": d.as_nanos().to_string()}),
+            Case::Build { var, n, mo, cn, cmo, alt } => json!({"kind": "build", "var": var,
+                "n_ns": n.to_string(), "mono_ns": mo.to_string(), "c_n_ns": cn.to_string(),
+                "c_mono_ns": cmo.to_string(), "alt": alt}),
+            Case::After { var, n, mo, pn, pmo, alt } => json!({"kind": "after", "var": var,
+                "n_ns": n.to_string(), "mono_ns": mo.to_string(), "p_n_ns": pn.to_string(),
+                "p_mono_ns": pmo.to_string(), "alt": alt}),
+        }
+    }
+    fn from_json(v: &Value) -> Option<Case> {
+        let s = |k: &str| v.get(k).and_then(|x| x.as_str());
+        let i = |k: &str| s(k).and_then(|x| x.parse::<i128>().ok());
+        let u = |k: &str| s(k).and_then(|x| x.parse::<u64>().ok());
+        let var = v.get("var").and_then(|x| x.as_u64()).unwrap_or(0) as u8;
+        let alt = v.get("alt").and_then(|x| x.as_bool()).unwrap_or(false);
+        Some(match v.get("kind")?.as_str()? {
+            "micros" => Case::Micros(s("m")?.parse().ok()?),
+            "wall" => Case::Wall(i("n_ns")?),
+            "arith" => Case::Arith {
+                var: var.min(3),
+                n: i("n_ns")?,
+                mo: u("mono_ns")?,
+                d: dur_from_ns(s("d_ns")?.parse::<u128>().ok()?),
+            },
+            "build" => Case::Build {
+                var: var.clamp(1, 3),
+                n: i("n_ns")?,
+                mo: u("mono_ns")?,
+                cn: i("c_n_ns")?,
+                cmo: u("c_mono_ns")?,
+                alt,
+            },
+            "after" => Case::After {
+                var: var.min(3),
+                n: i("n_ns")?,
+                mo: u("mono_ns")?,
+                pn: i("p_n_ns")?,
+                pmo: u("p_mono_ns")?,
+                alt,
+            },
+            _ => return None,
+        })
+    }
+}
+
+struct Ctx<'a> {
+    r: &'a mut Report,
+    base: Instant,
+    sampled: u32,
+    seen: BTreeMap<String, u32>,
+}
+
+impl Ctx<'_> {
+    /// Report a violation; at most 2 per signature and shard so that a systematic defect cannot
+    /// crowd other signatures out of the bounded report.
+    fn viol(&mut self, rule: &str, sig: String, detail: String, case: &Case) {
+        let k = self.seen.entry(sig.clone()).or_insert(0);
+        *k += 1;
+        if *k <= 2 {
+            self.r.violation(rule, &sig, detail, case.to_json());
+        } else {
+            self.r.count(&format!("more_violations[{sig}]"), 1);
+        }
+    }
+    fn panicked(&mut self, rule: &str, p: PanicInfo, case: &Case) {
+        let sig = format!("panic@{}", p.site());
+        self.viol(rule, sig, format!("panic `{}` at {} while judging {}", p.msg, p.loc, rule), case);
+    }
+    fn sample(&mut self, kind: u32, v: impl FnOnce() -> Value) {
+        if self.sampled & (1 << kind) == 0 && self.r.want_sample() {
+            self.sampled |= 1 << kind;
+            self.r.sample(v());
+        }
+    }
+    fn skip(&mut self) {
+        self.r.count("skipped_unrepresentable", 1);
+    }
+
+    fn run(&mut self, case: &Case) {
+        match *case {
+            Case::Micros(m) => self.check_micros(m, case),
+            Case::Wall(n) => self.check_wall(n, case),
+            Case::Arith { var, n, mo, d } => self.check_arith(var, n, mo, d, case),
+            Case::Build { var, n, mo, cn, cmo, alt } => self.check_build(var, n, mo, cn, cmo, alt, case),
+            Case::After { var, n, mo, pn, pmo, alt } => self.check_after(var, n, mo, pn, pmo, alt, case),
+        }
+    }
+
+    /// micros-roundtrip (+ the PartialComplexTime micros helpers and storage on the exact instant).
+    fn check_micros(&mut self, m: i64, case: &Case) {
+        let n = m as i128 * 1000;
+        let Some(expect_t) = st_from_ns(n) else { return self.skip() };
+        let mut f = Fnv::new();
+        f.str("micros-roundtrip");
+        wall_shape(&mut f, n);
+        self.r.eval(f.finish(), m < 0 || micros_is_boundary(m));
+        self.r.hit("micros-roundtrip");
+        let which = if m == i64::MIN { "m=i64::MIN" } else { "other" };
+        match guard(|| {
+            let t = lib_from_micros(m);
+            (t, lib_to_micros(t))
+        }) {
+            Err(p) => self.panicked("micros-roundtrip", p, case),
+            Ok((t, back)) => {
+                if t != expect_t {
+                    self.viol("micros-roundtrip", format!("micros-roundtrip {which}"),
+                        format!("micros_from_epoch_to_system_time({m}) = epoch{:+} ns, expected epoch{:+} ns", ns_of_st(t), n), case);
+                }
+                if back != Some(m) {
+                    self.viol("micros-roundtrip", format!("micros-roundtrip {which}"),
+                        format!("to_micros(from_micros({m})) = {back:?}, expected Some({m})"), case);
+                }
+                self.sample(0, || json!({"rule": "micros-roundtrip", "m": m, "system_time_ns": ns_of_st(t).to_string(),
+                    "back": back, "expected_back": m}));
+            }
+        }
+        // PartialComplexTime::from_micros_since_epoch must be the Wall variant at the same instant.
+        self.r.hit("storage-roundtrip");
+        match guard(|| PartialComplexTime::from_micros_since_epoch(m)) {
+            Err(p) => self.panicked("storage-roundtrip", p, case),
+            Ok(p) => {
+                if norm_p(self.base, p) != (1, Some(n), None) {
+                    let which = if m == i64::MIN { "t=i64::MIN-micros" } else { "other" };
+                    self.viol("storage-roundtrip", format!("storage-roundtrip {which}"),
+                        format!("PartialComplexTime::from_micros_since_epoch({m}) = {:?}, expected Wall(epoch{:+} ns)", norm_p(self.base, p), n), case);
+                }
+            }
+        }
+        self.check_storage(expect_t, n, case);
+    }
+
+    /// storage-roundtrip: set_time / get_time through MemStorage, and PartialComplexTime micros.
+    fn check_storage(&mut self, t: SystemTime, n: i128, case: &Case) {
+        let em = ref_micros(n);
+        let expect = em.and_then(|m| st_from_ns(m as i128 * 1000));
+        let mut f = Fnv::new();
+        f.str("storage-roundtrip");
+        wall_shape(&mut f, n);
+        self.r.eval(f.finish(), n < 0 || rem_class(n) != 0 || wall_is_boundary(n));
+        self.r.hit("storage-roundtrip");
+        let via_complex = n & 2 != 0; // set_time takes `impl Into<SystemTime>`
+        let mono = self.base;
+        let which = if em == Some(i64::MIN) { "t=i64::MIN-micros" } else { "other" };
+        match guard(|| {
+            let mut s = MemStorage::new();
+            let _ = block_on(s.set_int("t", 42)); // an older value: not fitting must act as remove
+            let set_ok = if via_complex {
+                block_on(s.set_time("t", ComplexTime { wall: t, mono })).is_ok()
+            } else {
+                block_on(s.set_time("t", t)).is_ok()
+            };
+            let before_commit = block_on(s.get_time("t"));
+            let commit_ok = block_on(s.commit()).is_ok();
+            let got = block_on(s.get_time("t"));
+            let pm = PartialComplexTime::Wall(t).checked_to_micros_since_epoch();
+            let none_m = PartialComplexTime::Monotonic(mono).checked_to_micros_since_epoch();
+            (set_ok, commit_ok, before_commit, got, pm, none_m)
+        }) {
+            Err(p) => self.panicked("storage-roundtrip", p, case),
+            Ok((set_ok, commit_ok, before_commit, got, pm, none_m)) => {
+                let show = |x: Option<SystemTime>| x.map(|t| format!("epoch{:+} ns", ns_of_st(t)));
+                if !set_ok || !commit_ok || got != expect || before_commit != expect {
+                    self.viol("storage-roundtrip", format!("storage-roundtrip {which}"),
+                        format!("set_time(epoch{:+} ns) ok={set_ok} commit ok={commit_ok}; get_time = {:?} (before commit {:?}), expected {:?}",
+                            n, show(got), show(before_commit), show(expect)), case);
+                }
+                if pm != em || none_m.is_some() {
+                    self.viol("storage-roundtrip", format!("storage-roundtrip {which}"),
+                        format!("PartialComplexTime::Wall(epoch{:+} ns).checked_to_micros_since_epoch() = {pm:?}, expected {em:?}; Monotonic gave {none_m:?}, expected None", n), case);
+                }
+                if n < 0 && rem_class(n) != 0 {
+                    self.sample(1, || json!({"rule": "storage-roundtrip", "stored_ns": n.to_string(),
+                        "reloaded": show(got), "expected": show(expect)}));
+                }
+            }
+        }
+    }
+
+    /// to-micros-trunc, storage-roundtrip, truncate-agrees, truncate-idempotent on epoch + n ns.
+    fn check_wall(&mut self, n: i128, case: &Case) {
+        let Some(t) = st_from_ns(n) else { return self.skip() };
+        if ns_of_st(t) != n {
+            self.r.inconclusive.push(format!("reference self-check failed for n={n}"));
+            return;
+        }
+        let em = ref_micros(n);
+        let nontrivial = n < 0 || rem_class(n) != 0 || wall_is_boundary(n);
+        let era = if n < 0 { "pre-epoch" } else { "post-epoch" };
+        let shape = |rule: &str| {
+            let mut f = Fnv::new();
+            f.str(rule);
+            wall_shape(&mut f, n);
+            f.finish()
+        };
+
+        self.r.eval(shape("to-micros-trunc"), nontrivial);
+        self.r.hit("to-micros-trunc");
+        match guard(|| lib_to_micros(t)) {
+            Err(p) => self.panicked("to-micros-trunc", p, case),
+            Ok(got) => {
+                if got != em {
+                    let which = if em == Some(i64::MIN) { "t=i64::MIN-micros" } else { "other" };
+                    self.viol("to-micros-trunc", format!("to-micros-trunc {which}"),
+                        format!("checked_system_time_to_micros_from_epoch(epoch{:+} ns) = {got:?}, expected {em:?}", n), case);
+                }
+            }
+        }
+
+        self.check_storage(t, n, case);
+
+        let mo = (n.unsigned_abs() % 1_000_000_007) as u64;
+        let c = ComplexTime { wall: t, mono: mono_at(self.base, mo) };
+        self.r.eval(shape("truncate-agrees"), nontrivial);
+        self.r.eval(shape("truncate-idempotent"), nontrivial);
+        match guard(|| {
+            let once = c.truncate_submicrosecond_walltime();
+            (once, once.truncate_submicrosecond_walltime())
+        }) {
+            Err(p) => {
+                self.r.hit("truncate-agrees");
+                self.panicked("truncate-agrees", p, case)
+            }
+            Ok((once, twice)) => {
+                self.r.hit("truncate-agrees");
+                let want = (n / 1000) * 1000;
+                let (_, w1, m1) = norm_c(self.base, once);
+                // The statement ties the helper to the storage round trip; where that round trip
+                // is undefined (does not fit i64 us) only the monotonic part is judged.
+                let wall_bad = em.is_some() && w1 != Some(want);
+                if em.is_none() {
+                    self.r.count("truncate_wall_dont_care_out_of_i64_range", 1);
+                }
+                if wall_bad || m1 != Some(mo as i128) {
+                    self.viol("truncate-agrees", format!("truncate-agrees {era}"),
+                        format!("truncate_submicrosecond_walltime(wall epoch{:+} ns, mono base+{mo}) = (wall epoch{:+} ns, mono base{:+}); expected wall epoch{:+} ns, mono unchanged",
+                            n, w1.unwrap_or(0), m1.unwrap_or(0), want), case);
+                }
+                self.r.hit("truncate-idempotent");
+                if twice != once {
+                    let (_, w2, m2) = norm_c(self.base, twice);
+                    self.viol("truncate-idempotent", format!("truncate-idempotent {era}"),
+                        format!("truncating wall epoch{:+} ns once gives epoch{:+} ns, twice gives epoch{:+} ns (mono {:?} vs {:?})",
+                            n, w1.unwrap_or(0), w2.unwrap_or(0), m1, m2), case);
+                }
+                if n > 0 && rem_class(n) == 3 {
+                    self.sample(2, || json!({"rule": "truncate-agrees", "wall_ns": n.to_string(),
+                        "truncated_ns": w1.map(|x| x.to_string()), "expected_ns": want.to_string(), "to_micros": em}));
+                }
+            }
+        }
+    }
+
+    /// arith-components: + d, - d, += d, -= d on ComplexTime and the three partial variants.
+    fn check_arith(&mut self, var: u8, n: i128, mo: u64, d: Duration, case: &Case) {
+        let (has_w, has_m) = (var != 2, var != 1);
+        let Some(w) = st_from_ns(n) else { return self.skip() };
+        let m = mono_at(self.base, mo);
+        let dn = d.as_nanos() as i128;
+        let add_ok = (!has_w || st_from_ns(n + dn).is_some()) && (!has_m || mo as u128 + dn as u128 <= MONO_MAX_NS);
+        let sub_ok = (!has_w || st_from_ns(n - dn).is_some()) && (!has_m || dn <= mo as i128);
+        let c = ComplexTime { wall: w, mono: m };
+        let p = match var {
+            1 => PartialComplexTime::Wall(w),
+            2 => PartialComplexTime::Monotonic(m),
+            _ => PartialComplexTime::Complex(c),
+        };
+        let base = self.base;
+        for (op, name, ok, sign) in [(0u8, "add", add_ok, 1i128), (1, "sub", sub_ok, -1), (2, "add-assign", add_ok, 1), (3, "sub-assign", sub_ok, -1)] {
+            if !ok {
+                self.r.count("arith_skipped_out_of_clock_range", 1);
+                continue;
+            }
+            let want: Norm = (var, has_w.then(|| n + sign * dn), has_m.then(|| mo as i128 + sign * dn));
+            let crosses = has_w && (n < 0) != (n + sign * dn < 0);
+            let mut f = Fnv::new();
+            f.str("arith-components").u64(op as u64).u64(var as u64).u64(dur_class(d)).u64(crosses as u64);
+            f.u64((n < 0) as u64).u64(bits(n.unsigned_abs()) / 8).u64(rem_class(n));
+            self.r.eval(f.finish(), (var != 3 && var != 0) || n < 0 || rem_class(n) != 0 || crosses || dn == 0 || wall_is_boundary(n));
+            self.r.hit("arith-components");
+            let got = guard(|| match (var, op) {
+                (0, 0) => norm_c(base, c + d),
+                (0, 1) => norm_c(base, c - d),
+                (0, 2) => {
+                    let mut x = c;
+                    x += d;
+                    norm_c(base, x)
+                }
+                (0, _) => {
+                    let mut x = c;
+                    x -= d;
+                    norm_c(base, x)
+                }
+                (_, 0) => norm_p(base, p + d),
+                (_, 1) => norm_p(base, p - d),
+                (_, 2) => {
+                    let mut x = p;
+                    x += d;
+                    norm_p(base, x)
+                }
+                (_, _) => {
+                    let mut x = p;
+                    x -= d;
+                    norm_p(base, x)
+                }
+            });
+            match got {
+                Err(pi) => self.panicked("arith-components", pi, case),
+                Ok(got) => {
+                    if got != want {
+                        self.viol("arith-components", format!("arith-components {name} {}", VAR_NAMES[var as usize]),
+                            format!("{}(wall {:?} ns, mono {:?} ns) {name} {dn} ns = {:?}, expected {:?} (tag, wall ns, mono ns)",
+                                VAR_NAMES[var as usize], has_w.then_some(n), has_m.then_some(mo), got, want), case);
+                    }
+                    if var == 1 && n < 0 {
+                        self.sample(3, || json!({"rule": "arith-components", "op": name, "variant": "Wall", "wall_ns": n.to_string(),
+                            "d_ns": dn.to_string(), "got": format!("{got:?}"), "expected": format!("{want:?}")}));
+                    }
+                }
+            }
+        }
+    }
+
+    /// arith-components: From conversions, destructure / checked_to_*, complete_with.
+    #[allow(clippy::too_many_arguments)]
+    fn check_build(&mut self, var: u8, n: i128, mo: u64, cn: i128, cmo: u64, alt: bool, case: &Case) {
+        let (has_w, has_m) = (var != 2, var != 1);
+        let (Some(w), Some(cw)) = (st_from_ns(n), st_from_ns(cn)) else { return self.skip() };
+        let (m, cm) = (mono_at(self.base, mo), mono_at(self.base, cmo));
+        let base = self.base;
+        let vname = VAR_NAMES[var as usize];
+        let shape = |op: &str| {
+            let mut f = Fnv::new();
+            f.str("arith-components").str(op).u64(var as u64).u64(alt as u64);
+            f.u64((n < 0) as u64).u64(rem_class(n)).u64((cn < n) as u64 * 2 + (cmo < mo) as u64).u64(bits(n.unsigned_abs()) / 8);
+            f.finish()
+        };
+        let nontrivial = var != 3 || n < 0 || rem_class(n) != 0;
+
+        // From conversions
+        self.r.eval(shape("from"), nontrivial);
+        self.r.hit("arith-components");
+        let built = guard(|| {
+            let p = match (var, alt) {
+                (1, _) => PartialComplexTime::from(w),
+                (2, _) => PartialComplexTime::from(m),
+                (_, false) => PartialComplexTime::from((w, m)),
+                (_, true) => PartialComplexTime::from(ComplexTime { wall: w, mono: m }),
+            };
+            let c = ComplexTime::from((w, m));
+            let opt: Option<PartialComplexTime> = c.into();
+            (p, c, SystemTime::from(c), Instant::from(c), opt)
+        });
+        let p = match built {
+            Err(pi) => return self.panicked("arith-components", pi, case),
+            Ok((p, c, sw, im, opt)) => {
+                let want: Norm = (var, has_w.then_some(n), has_m.then_some(mo as i128));
+                let c_ok = c.wall == w && c.mono == m && sw == w && im == m && opt.map(|x| norm_p(base, x)) == Some((3, Some(n), Some(mo as i128)));
+                if norm_p(base, p) != want || !c_ok {
+                    self.viol("arith-components", format!("arith-components from {vname}"),
+                        format!("From conversion gave {:?}, expected {:?}; ComplexTime::from((w,m)) and back ok={c_ok}", norm_p(base, p), want), case);
+                }
+                p
+            }
+        };
+
+        // destructure / checked_to_system_time / checked_to_instant
+        self.r.eval(shape("destructure"), nontrivial);
+        self.r.hit("arith-components");
+        match guard(|| (p.destructure(), p.checked_to_system_time(), p.checked_to_instant())) {
+            Err(pi) => self.panicked("arith-components", pi, case),
+            Ok((des, sw, im)) => {
+                let want = (has_w.then_some(w), has_m.then_some(m));
+                if des != want || sw != want.0 || im != want.1 {
+                    self.viol("arith-components", format!("arith-components destructure {vname}"),
+                        format!("{vname}: destructure = {des:?}, checked_to_system_time = {sw:?}, checked_to_instant = {im:?}, expected {want:?}"), case);
+                }
+            }
+        }
+
+        // complete_with
+        self.r.eval(shape("complete-with"), nontrivial);
+        self.r.hit("arith-components");
+        match guard(|| p.complete_with(ComplexTime { wall: cw, mono: cm })) {
+            Err(pi) => self.panicked("arith-components", pi, case),
+            Ok(c) => {
+                let want: Norm = (0, Some(if has_w { n } else { cn }), Some(if has_m { mo } else { cmo } as i128));
+                if norm_c(base, c) != want {
+                    self.viol("arith-components", format!("arith-components complete-with {vname}"),
+                        format!("{vname}(wall {n}, mono {mo}).complete_with(wall {cn}, mono {cmo}) = {:?}, expected {:?}", norm_c(base, c), want), case);
+                }
+            }
+        }
+    }
+
+    /// after-or-eq-any
+    #[allow(clippy::too_many_arguments)]
+    fn check_after(&mut self, var: u8, n: i128, mo: u64, pn: i128, pmo: u64, alt: bool, case: &Case) {
+        let (has_w, has_m) = (var != 2, var != 1);
+        let (Some(w), Some(pw)) = (st_from_ns(n), st_from_ns(pn)) else { return self.skip() };
+        let (m, pm) = (mono_at(self.base, mo), mono_at(self.base, pmo));
+        let want = (has_w && n >= pn) || (has_m && mo >= pmo);
+        let me = ComplexTime { wall: w, mono: m };
+        let rel = |a: i128, b: i128| match a - b {
+            x if x < -1 => 0u64,
+            -1 => 1,
+            0 => 2,
+            1 => 3,
+            _ => 4,
+        };
+        let mut f = Fnv::new();
+        f.str("after-or-eq-any").u64(var as u64).u64(alt as u64).u64(rel(n, pn)).u64(rel(mo as i128, pmo as i128));
+        f.u64((n < 0) as u64).u64((pn < 0) as u64).u64(rem_class(n)).u64(bits(n.unsigned_abs()) / 8);
+        let close = (n - pn).abs() <= 1 || (mo as i128 - pmo as i128).abs() <= 1;
+        self.r.eval(f.finish(), var == 1 || var == 2 || close || n < 0 || (n >= pn) != (mo >= pmo));
+        self.r.hit("after-or-eq-any");
+        let pc = ComplexTime { wall: pw, mono: pm };
+        match guard(|| match (var, alt) {
+            (0, _) => me.is_after_or_eq_any(pc),
+            (1, false) => me.is_after_or_eq_any(PartialComplexTime::Wall(pw)),
+            (1, true) => me.is_after_or_eq_any(pw),
+            (2, false) => me.is_after_or_eq_any(PartialComplexTime::Monotonic(pm)),
+            (2, true) => me.is_after_or_eq_any(pm),
+            (_, false) => me.is_after_or_eq_any(PartialComplexTime::Complex(pc)),
+            (_, true) => me.is_after_or_eq_any((pw, pm)),
+        }) {
+            Err(pi) => self.panicked("after-or-eq-any", pi, case),
+            Ok(got) => {
+                if got != want {
+                    self.viol("after-or-eq-any", format!("after-or-eq-any {}", VAR_NAMES[var as usize]),
+                        format!("(wall {n}, mono {mo}).is_after_or_eq_any({}(wall {:?}, mono {:?})) = {got}, expected {want}",
+                            VAR_NAMES[var as usize], has_w.then_some(pn), has_m.then_some(pmo)), case);
+                }
+                self.sample(4, || json!({"rule": "after-or-eq-any", "self": {"wall_ns": n.to_string(), "mono_ns": mo},
+                    "other": {"variant": VAR_NAMES[var as usize], "wall_ns": pn.to_string(), "mono_ns": pmo}, "got": got, "expected": want}));
+            }
+        }
+    }
+}
+
+// ---------------------------------------------------------------------------------------------
+// Generators
+
+fn rand_u128(g: &mut Rng) -> u128 {
+    ((g.next_u64() as u128) << 64) | g.next_u64() as u128
+}
+/// Random value with a uniformly chosen bit length in 1..=max_bits.
+fn log_uniform(g: &mut Rng, max_bits: u64) -> u128 {
+    let b = 1 + g.below(max_bits);
+    let top = 1u128 << (b - 1);
+    top | (rand_u128(g) & (top - 1))
+}
+fn gen_micros(g: &mut Rng, boundary: &[i64]) -> i64 {
+    match g.below(6) {
+        0 => g.next_u64() as i64,
+        1 => g.range(-10_000_000, 10_000_000),
+        2 => g.range(-2000, 2000),
+        3 => {
+            let v = log_uniform(g, 63) as i64;
+            if g.bool() { v } else { -v }
+        }
+        4 => *g.pick(boundary),
+        _ => g.range(1_500_000_000_000_000, 2_000_000_000_000_000), // 2017..2033
+    }
+}
+fn gen_wall(g: &mut Rng, boundary: &[i64]) -> i128 {
+    let n: i128 = match g.below(8) {
+        0 => (rand_u128(g) % (2 * WALL_LIM_NS as u128 + 1)) as i128 - WALL_LIM_NS,
+        1 | 2 => {
+            let v = (log_uniform(g, 93) as i128).min(WALL_LIM_NS);
+            if g.bool() { v } else { -v }
+        }
+        3 => g.range(-5_000_000, 5_000_000) as i128,
+        4 => (if g.bool() { EDGE_NS } else { -EDGE_NS }) + g.range(-3_000_000, 3_000_000) as i128,
+        5 => g.range(1_500_000_000_000_000_000, 2_000_000_000_000_000_000) as i128,
+        6 => *g.pick(boundary) as i128 * 1000,
+        _ => g.next_u64() as i64 as i128 * 1000,
+    };
+    // bias the sub-microsecond remainder towards its classes {0, 1, 999, other}
+    let r = match g.below(6) {
+        0 => 0,
+        1 => 1,
+        2 => 999,
+        3 => g.range(2, 998) as i128,
+        _ => return n,
+    };
+    let q = (n / 1000) * 1000;
+    if n < 0 || (n == 0 && g.bool()) { q - r } else { q + r }
+}
+fn gen_dur(g: &mut Rng, max_ns: u128) -> Duration {
+    let ns = match g.below(8) {
+        0 => 0,
+        1 => 1,
+        2 => g.below(1000) as u128,
+        3 => g.below(1_000_000) as u128 * 1000,
+        4 => g.below(86_400_000_000_000) as u128,
+        5 => log_uniform(g, bits(max_ns)),
+        6 => rand_u128(g) % (max_ns + 1),
+        _ => max_ns,
+    };
+    dur_from_ns(ns.min(max_ns))
+}
+const YEAR_NS: u128 = 31_557_600 * 1_000_000_000;
+fn gen_mono(g: &mut Rng) -> u64 {
+    (match g.below(4) {
+        0 => g.below(2000) as u128,
+        1 => log_uniform(g, 62),
+        _ => rand_u128(g) % (100 * YEAR_NS),
+    })
+    .min(100 * YEAR_NS) as u64
+}
+fn gen_arith(g: &mut Rng, boundary: &[i64]) -> Case {
+    let var = g.below(4) as u8;
+    let n = gen_wall(g, boundary);
+    if var == 1 {
+        // wall only: the duration may be anything the SystemTime range can take
+        let max = if g.chance(1, 8) { (1u128 << 62) * 1_000_000_000 } else { 2 * WALL_LIM_NS as u128 };
+        let d = if g.chance(1, 4) { dur_from_ns(n.unsigned_abs()) } else { gen_dur(g, max) };
+        return Case::Arith { var, n, mo: 0, d };
+    }
+    let d = gen_dur(g, 90 * YEAR_NS);
+    let dn = d.as_nanos();
+    // keep the Instant at or above the base when subtracting: mostly mo >= d
+    let mo = match g.below(4) {
+        0 => gen_mono(g),
+        1 => dn.min(100 * YEAR_NS) as u64,
+        _ => (dn + gen_mono(g) as u128).min(100 * YEAR_NS) as u64,
+    };
+    Case::Arith { var, n, mo, d }
+}
+fn near(g: &mut Rng, x: i128) -> i128 {
+    match g.below(6) {
+        0 => x - 1,
+        1 => x,
+        2 => x + 1,
+        3 => x - 1 - g.below(1_000_000_000_000) as i128,
+        4 => x + 1 + g.below(1_000_000_000_000) as i128,
+        _ => -x,
+    }
+}
+fn gen_after(g: &mut Rng, boundary: &[i64]) -> Case {
+    let n = gen_wall(g, boundary);
+    let mo = gen_mono(g).max(1);
+    let pn = if g.chance(1, 6) { gen_wall(g, boundary) } else { near(g, n) };
+    let pmo = if g.chance(1, 6) { gen_mono(g) } else { near(g, mo as i128).clamp(0, 100 * YEAR_NS as i128) as u64 };
+    Case::After { var: g.below(4) as u8, n, mo, pn, pmo, alt: g.bool() }
+}
+
+/// Deterministic boundary cases, in priority order (global index decides the owning shard).
+fn boundary_cases(boundary: &[i64], miri: bool) -> Vec<Case> {
+    let mut v: Vec<Case> = vec![];
+    let lead = [i64::MIN, i64::MIN + 1, i64::MAX, -1, 0, 1, -1000, -999, 999, 1000];
+    v.extend(lead.iter().map(|&m| Case::Micros(m)));
+    for m in lead {
+        for r in [0i128, -1, 1, -999, 999] {
+            v.push(Case::Wall(m as i128 * 1000 + r));
+        }
+    }
+    let ks: Vec<i128> = if miri {
+        vec![2, 3, 500, 998, 1001, 1002, 1999, 2000]
+    } else {
+        (0..=2000).collect()
+    };
+    for &k in &ks {
+        v.push(Case::Wall(k));
+        v.push(Case::Wall(-k));
+    }
+    for &k in &ks {
+        for e in [EDGE_NS, -EDGE_NS] {
+            v.push(Case::Wall(e + k));
+            v.push(Case::Wall(e - k));
+        }
+    }
+    let step = if miri { 16 } else { 1 };
+    for &m in boundary.iter().step_by(step) {
+        v.push(Case::Micros(m));
+        for r in [0i128, -1, 1, -999, 999, -500, 500] {
+            v.push(Case::Wall(m as i128 * 1000 + r));
+        }
+    }
+    // every variant x interesting relation for the structural rules
+    for var in 0..4u8 {
+        for (n, d) in [(-1500i128, 700u64), (1500, 700), (-1, 2), (0, 0), (1_600_000_000_000_000_123, 1_000_000_000)] {
+            v.push(Case::Arith { var, n, mo: 5_000_000_000, d: Duration::from_nanos(d) });
+            if var > 0 {
+                v.push(Case::Build { var, n, mo: 77, cn: -n + 5, cmo: 99, alt: d % 2 == 0 });
+            }
+            for (dw, dm) in [(-1i128, -1i64), (-1, 0), (-1, 1), (0, -1), (0, 0), (0, 1), (1, -1), (1, 0), (1, 1)] {
+                v.push(Case::After { var, n, mo: 1000, pn: n + dw, pmo: (1000 + dm) as u64, alt: dw + dm as i128 > 0 });
+            }
+        }
+    }
+    v
+}
+
+pub fn run(args: &Args, r: &mut Report) {
+    r.rule_text = "Cases: (a) i64 microsecond counts m (named boundaries i64::MIN..MAX, +/-10^6+/-1, +/-1000, powers of two +/-1 \
+        of both signs, uniform-bit, log-uniform and small-range random); (b) wall times epoch+n ns (exhaustive n in -2000..=2000, \
+        exhaustive +/-2^63 us +/-2000 ns, every boundary m x sub-us offsets, random up to +/-300000 years with the sub-us remainder \
+        biased to {0,1,999,other}); (c) ComplexTime / PartialComplexTime {Wall,Monotonic,Complex} with add/sub/+=/-= of durations \
+        (0, 1 ns, sub-us, whole us, up to 2^62 s for wall-only) kept inside the clock ranges, From conversions, destructure, \
+        complete_with; (d) is_after_or_eq_any over component relations {<<,-1,=,+1,>>}^2 and all variants. Expected values come from \
+        i128-nanosecond reference arithmetic. A case is distinct by (rule, operation, variant, sign, log2 magnitude bucket, sub-us \
+        remainder class {0,1,999,other}, boundary flag, duration class, component relation); it is non-trivial when it involves a \
+        boundary value, a pre-epoch time, a non-zero sub-us remainder, an epoch crossing, a near-equal comparison or a non-Complex variant."
+        .into();
+    r.require(&RULES);
+    r.assume("std::time SystemTime/Instant/Duration checked_add/checked_sub/duration_since arithmetic is correct (used to build inputs and read results back)");
+    r.assume("the harness's i128-nanosecond reference arithmetic (truncating division, comparisons) is correct");
+    r.assume("Instants are only observed relative to one base Instant taken at start; verdicts do not depend on its value");
+    r.assume("futures::executor::block_on drives MemStorage's ready futures faithfully");
+
+    let mut cx = Ctx { r, base: Instant::now(), sampled: 0, seen: BTreeMap::new() };
+
+    if let Some(path) = &args.replay {
+        let v: Value = std::fs::read_to_string(path).ok().and_then(|s| serde_json::from_str(&s).ok()).unwrap_or(Value::Null);
+        match Case::from_json(v.get("replay").unwrap_or(&v)) {
+            Some(c) => cx.run(&c),
+            None => cx.r.inconclusive.push(format!("cannot parse replay file {path}")),
+        }
+        return;
+    }
+
+    let miri = args.layer == "miri";
+    let budget = if miri { args.budget(32_000, 32_000).min(2_000) } else { args.budget(2_000_000, 200_000_000) };
+    let boundary = boundary_micros();
+
+    // 1. deterministic boundary cases, split across shards
+    for (i, c) in boundary_cases(&boundary, miri).iter().enumerate() {
+        if args.mine(i as u64) && (!miri || cx.r.evaluations < budget * 3 / 4) {
+            cx.run(c);
+        }
+    }
+    cx.r.count("boundary_phase_evaluations", cx.r.evaluations);
+
+    // 2. random cases up to the budget (at least a quarter of it)
+    let target = cx.r.evaluations.max(budget * 3 / 4) + budget / 4;
+    let mut g = args.rng(19);
+    let mut i = 0u64;
+    while cx.r.evaluations < target {
+        let c = match i % 10 {
+            0 | 1 => Case::Micros(gen_micros(&mut g, &boundary)),
+            2 | 3 | 4 => Case::Wall(gen_wall(&mut g, &boundary)),
+            5 | 6 => gen_arith(&mut g, &boundary),
+            7 => Case::Build {
+                var: 1 + g.below(3) as u8,
+                n: gen_wall(&mut g, &boundary),
+                mo: gen_mono(&mut g),
+                cn: gen_wall(&mut g, &boundary),
+                cmo: gen_mono(&mut g),
+                alt: g.bool(),
+            },
+            _ => gen_after(&mut g, &boundary),
+        };
+        cx.run(&c);
+        i += 1;
+    }
+    cx.r.count("random_cases", i);
+}
